@@ -260,12 +260,18 @@ class Ctx:
             parse_tlc(out, res)
             res.ok = False
             res.error = 'TLC timed out after %ds' % timeout
+            shutil.rmtree(md, ignore_errors=True)
             if simulate and res.violation is None:
                 # a simulation that is cut off by the time limit without violation is a normal end
                 res.error = None
                 res.ok = True
-            shutil.rmtree(md, ignore_errors=True)
-            return res
+                self.cov['tlc_runs'].append({'spec': module, 'cfg': cfg, 'label': label or '', 'distinct': res.distinct,
+                                             'generated': res.generated, 'mode': 'simulate (time-boxed)',
+                                             'wall_s': round(res.wall, 2)})
+                return res
+            if res.violation:
+                return res
+            raise ToolError('TLC timed out after %ds on %s/%s (no result)' % (timeout, module, cfg))
         res.wall = time.time() - t0
         parse_tlc(out, res)
         shutil.rmtree(md, ignore_errors=True)
